@@ -200,6 +200,7 @@ fn parse_duration_secs(value: &str) -> Result<Duration, String> {
 
 /// Timeout settings for socket operations
 #[cfg_attr(feature = "serde", derive(Serialize, Deserialize))]
+#[cfg_attr(feature = "serde", serde(try_from = "UncheckedTimeoutSettings"))]
 #[cfg_attr(feature = "clap", derive(clap::Args))]
 #[derive(Debug, Clone, Copy, PartialEq, Eq, Hash, PartialOrd, Ord)]
 pub struct TimeoutSettings {
@@ -307,6 +308,25 @@ impl TimeoutSettings {
             connect: Some(Duration::from_secs(4)),
             retries: 0,
         }
+    }
+}
+
+/// What is deserialized before it has been validated by [TimeoutSettings::new].
+#[cfg(feature = "serde")]
+#[derive(Deserialize)]
+struct UncheckedTimeoutSettings {
+    connect: Option<Duration>,
+    read: Option<Duration>,
+    write: Option<Duration>,
+    retries: usize,
+}
+
+#[cfg(feature = "serde")]
+impl TryFrom<UncheckedTimeoutSettings> for TimeoutSettings {
+    type Error = crate::GDError;
+
+    fn try_from(value: UncheckedTimeoutSettings) -> GDResult<Self> {
+        Self::new(value.read, value.write, value.connect, value.retries)
     }
 }
 
